@@ -8,6 +8,8 @@ Tie (verdict correspondence), three streams run through the real checker and the
   frag  expression programs over annotated Nat/Int/Bool variables: checker verdict and run-time outcome must equal the Lean
         model's (typeOf/eval with the regenerated signatures), and an accepted program must not end in a type-related error;
   rows  one operator application per declared signature row of ALL classes (Float, Str, mutable variants): executed only;
+  enum  literal integer enums with mixed signs in both orders (list literals, if-expressions, for-loops): the selected member must
+        be printed unchanged (expected output computed from the literals), no type-related error;
   gen   programs of the shared fragment generator (functions, lists, loops, method calls): executed only.
 An accepted program ending in TypeError/AttributeError/NameError/wrapper ValueError is a violation unless it falls in the class
 of a recorded finding; ZeroDivisionError, IndexError, AssertionError, SystemExit are legitimate."""
@@ -163,6 +165,55 @@ def gen_rows(rng, decl, n, start):
     return out
 
 
+ENUM_POOL = [0, 1, 2, 3, 5, 7, 255, 65536, -1, -2, -7, -255, -65536]
+
+
+def gen_enum(rng, idx):
+    """literal integer enums with mixed signs in both orders (list literals, if-expressions at top level and in a function, a
+    for-loop over a list literal), each member selected in some program; optionally `+ k` / `* k` on the selected value.
+    returns (id, input, source, expected stdout)"""
+    n = 2 + rng.below(2)
+    vals = [rng.pick(ENUM_POOL) for _ in range(n)]
+    if rng.chance(2, 3):
+        # force a mixed-sign enum; the order (non-negative first / negative first) is random
+        vals[0] = rng.pick([0, 1, 3, 7, 255])
+        vals[1] = rng.pick([-1, -2, -7, -255])
+        if rng.chance(1, 2):
+            vals[0], vals[1] = vals[1], vals[0]
+    lit = lambda v: str(v)
+    shape = rng.pick(["if-top", "if-func", "list-index", "list-for", "if-arith", "list-arith"])
+    if shape.startswith("if"):
+        vals = vals[:2]
+        c = rng.below(2)
+        pick = vals[0] if c else vals[1]
+        cs = "True" if c else "False"
+        if shape == "if-top":
+            src = "c = %s\nx = if(c, do(%s), do(%s))\nprint! x\n" % (cs, lit(vals[0]), lit(vals[1]))
+            exp = [pick]
+        elif shape == "if-func":
+            src = "pick(c: Bool) = if c, do %s, do %s\nprint! pick(%s)\nprint! pick(%s)\n" % (lit(vals[0]), lit(vals[1]), cs, "False" if c else "True")
+            exp = [pick, vals[1] if c else vals[0]]
+        else:
+            k = rng.pick([0, 1, 2, 10])
+            op = rng.pick(["+", "*"])
+            src = "c = %s\nx = if(c, do(%s), do(%s))\nprint! (x %s %d)\n" % (cs, lit(vals[0]), lit(vals[1]), op, k)
+            exp = [pick + k if op == "+" else pick * k]
+    else:
+        i = rng.below(len(vals))
+        ls = "[" + ", ".join(lit(v) for v in vals) + "]"
+        if shape == "list-index":
+            src = "xs = %s\nprint! xs[%d]\n" % (ls, i)
+            exp = [vals[i]]
+        elif shape == "list-for":
+            src = "xs = %s\nfor! xs, x =>\n    print! x\n" % ls
+            exp = list(vals)
+        else:
+            k = rng.pick([0, 1, 2, 10])
+            src = "xs = %s\nf(i: Int): Int = i * %d\nprint! f(xs[%d])\n" % (ls, k, i)
+            exp = [vals[i] * k]
+    return "e%d" % idx, "(enum %s (%s))" % (shape, " ".join(str(v) for v in vals)), src, "\\n".join(str(v) for v in exp)
+
+
 def c26_quote(s):
     return '"' + s + '"'
 
@@ -209,6 +260,8 @@ def canon_impl(r):
 
 def run(ctx, replay_cases=None):
     nf, nr, ng = (900, 900, 300) if ctx.tier == "thorough" else (90, 70, 20)
+    ne = 400 if ctx.tier == "thorough" else 48
+    expected = {}
     ctx.cov["rule"] = ("frag: 2-4 annotated Nat/Int/Bool variables with boundary-pool values (negative, mixed sign, >= 2^31, 2^63, 10^20) and one "
                        "printed operator expression of depth 1-3 built type-directed from the checker's own signature table (1/6 with `**`); "
                        "rows: one operator application per declared signature row over all 10 builtin classes incl. mutable; gen: shared "
@@ -247,11 +300,17 @@ def run(ctx, replay_cases=None):
         if os.path.exists(corp):
             for c in json.load(open(corp)):
                 cases.append((c["id"], c["input"], c["src"], c.get("kind", "frag")))
+                if "expect" in c:
+                    expected[c["id"]] = c["expect"]
         for i in range(nf):
             cid, inp, src = gen_frag(rng, decl, i)
             cases.append((cid, inp, src, "frag"))
         for cid, inp, src in gen_rows(rng, decl, nr, ctx.seed * 101):
             cases.append((cid, inp, src, "row"))
+        for i in range(ne):
+            cid, inp, src, exp = gen_enum(rng, i)
+            cases.append((cid, inp, src, "enum"))
+            expected[cid] = exp
         for pid, prog, feats in fragrun.gen_programs(ctx.seed + 4242, ng, zero_div=True):
             feats = sorted(set(feats) | fraggen.tree_features(prog))
             cases.append(("g" + pid, "(gen %s)" % " ".join(feats), fraggen.to_erg(prog), "gen"))
@@ -295,6 +354,9 @@ def run(ctx, replay_cases=None):
         if impl.startswith("exc:") and impl[4:] in TYPE_ERR:
             k = known_class(kind, inp, c[2], impl[4:], r_err.get(cid, ""))
             (py_known if k in known_ids else py_viol).append((cid, inp, impl, c[2], k))
+        elif kind == "enum" and impl != "rejected" and impl != "ok " + expected.get(cid, ""):
+            # the selected member of a literal enum must come out unchanged (no class is recorded for this stream)
+            py_viol.append((cid, inp, impl + " (expected: ok " + expected.get(cid, "?") + ")", c[2], None))
         elif impl.startswith("crash"):
             pass        # crashes of the checker are C07's subject
     nt = len({r_[1] for r_ in rows if not r_[2].startswith("rejected") and ("bin" in r_[1] or "row" in r_[1] or "gen" in r_[1])})
